@@ -101,7 +101,56 @@ class PyNameList(Val):
 TNameList = TNameListCls()
 
 
+np_rep = z3.Function("np_concatenate_repeated", V, IntS, V)        # np.concatenate([a] * k)
+np_cat = z3.Function("np_concatenate_pair", V, V, V)                # np.concatenate([a, b])
+np_app = z3.Function("np_r_append_one", V, V, V)                    # np.r_[a, [v]]
+cat_ok = z3.Function("np_concatenate_shapes_agree", V, V, BoolS)    # trailing dimensions / dtypes allow the concatenation
+
+
 class RectEngine(TableEngine):
+    def isinstance_hook(self, v, clsnode, cx):
+        if isinstance(clsnode, ast.Name) and clsnode.id == "Table" and isinstance(v, PyRec):
+            return PyBool(z3.BoolVal(v.cls == "Table"))
+        return super().isinstance_hook(v, clsnode, cx)
+
+    def np_call(self, name, e, cx):
+        """numpy-lite for the derivations: lengths along the first axis only
+             np.concatenate([a] * k)  : ValueError for k <= 0 ("need at least one array"), else length k * len(a)
+             np.concatenate([a, b])   : length len(a) + len(b), or ValueError when the other dimensions disagree"""
+        if name == "concatenate" and len(e.args) == 1:
+            a = e.args[0]
+            if isinstance(a, ast.BinOp) and isinstance(a.op, ast.Mult) and isinstance(a.left, ast.List) and len(a.left.elts) == 1:
+                x = self.eval(a.left.elts[0], cx)
+                k = self.eval(a.right, cx)
+                if isinstance(x, PyObj) and isinstance(k, PyInt):
+                    cx.raise_if(k.t <= 0, "ValueError")
+                    r = np_rep(x.t, k.t)
+                    cx.assume(alen(r) == k.t * alen(x.t))
+                    return PyObj(r)
+            if isinstance(a, ast.List) and len(a.elts) == 2:
+                x, y = self.eval(a.elts[0], cx), self.eval(a.elts[1], cx)
+                if isinstance(x, PyObj) and isinstance(y, PyObj):
+                    cx.raise_if(z3.Not(cat_ok(x.t, y.t)), "ValueError")
+                    r = np_cat(x.t, y.t)
+                    cx.assume(alen(r) == alen(x.t) + alen(y.t))
+                    return PyObj(r)
+        raise Unsupported(f"np.{name} form")
+
+    def eval_Subscript(self, e, cx):
+        v = e.value
+        if isinstance(v, ast.Attribute) and isinstance(v.value, ast.Name) and v.value.id == "np" and v.attr == "r_" and "np" not in cx.st.env:
+            # np.r_[a, [x]] : one more row
+            sl = e.slice
+            if isinstance(sl, ast.Tuple) and len(sl.elts) == 2 and isinstance(sl.elts[1], ast.List) and len(sl.elts[1].elts) == 1:
+                a = self.eval(sl.elts[0], cx)
+                x = self.eval(sl.elts[1].elts[0], cx)
+                if isinstance(a, PyObj) and isinstance(x, PyObj):
+                    r = np_app(a.t, x.t)
+                    cx.assume(alen(r) == alen(a.t) + 1)
+                    return PyObj(r)
+            raise Unsupported("np.r_ form")
+        return super().eval_Subscript(e, cx)
+
     def verify(self, contract, fdef, classctx=None):
         del _ALLOCATED[:]
         return super().verify(contract, fdef, classctx)
@@ -140,6 +189,8 @@ class RectEngine(TableEngine):
         return super().getitem_hook(obj, idx, cx, node)
 
     def call_method(self, recv, name, e, cx, recv_node):
+        if isinstance(recv_node, ast.Name) and recv_node.id == "np" and "np" not in cx.st.env:
+            return self.np_call(name, e, cx)
         if name == "__class__" and isinstance(recv, PyRec):
             return self.construct(recv, e, cx)
         return super().call_method(recv, name, e, cx, recv_node)
